@@ -33,7 +33,9 @@ def AllC : LExpr K → Prop
   | .T a | .H a | .conj a | .gram a => AllC a
 
 /-- at every `a @ b` whose operands are built as a `Diagonal` and a member of the `Diagonal`
-    family there is no broadcasting between the two diagonal arrays (`DiagProductPlain`) -/
+    family **on BlockArray shapes** there is no broadcasting between the two diagonal arrays
+    (`DiagProductOk`: nothing is required when all shapes are plain — any numpy broadcasting between
+    the two diagonals is covered by `diagMatmul_sound_plain`) -/
 def PlainDiagProducts : LExpr K → Prop
   | .matmul a b =>
     PlainDiagProducts a ∧ PlainDiagProducts b
